@@ -52,11 +52,20 @@ func rt_33(c *core.Ctx, p *core.Prog) {
 				// stores of a non-nil error into a captured variable
 				isErrStore := func(j ssa.Instruction) bool {
 					st, ok := j.(*ssa.Store)
-					if !ok || !isErr(st.Val.Type()) || core.IsNilConst(st.Val) {
+					if !ok {
 						return false
 					}
-					_, isFree := st.Addr.(*ssa.FreeVar)
-					return isFree
+					if _, isFree := st.Addr.(*ssa.FreeVar); !isFree {
+						return false
+					}
+					// a non-nil error, or a flag set to true (`found = true; return false` in a search or comparison)
+					if isErr(st.Val.Type()) && !core.IsNilConst(st.Val) {
+						return true
+					}
+					if b, isB := core.ConstBool(st.Val); isB && b {
+						return true
+					}
+					return false
 				}
 				// edges on which a captured / local error is known to be non-nil
 				errEdges := map[core.Edge]bool{}
